@@ -14,8 +14,11 @@ RULE = ("cases = register map (address size 3/7/15, register size 8/16/32, rando
         "input / memory-backed (sizes <= register size) / write-only strobe registers, with and without the "
         "autonegotiation register) x controller behaviour; behaviours: legal reads and writes of assigned and "
         "unassigned addresses with random legal clock timing, the same with chip select dropped at a uniformly "
-        "chosen bit position (every position of command and data phase, either clock level), extra clocks after the "
-        "word, too-fast clocks, unstructured pin noise")
+        "chosen bit position (every position of command and data phase, either clock level: SCK low | SCK high with SCK "
+        "falling together with the release or held high into the next transaction | in the cycle of the falling edge | "
+        "'highlate' (2 of 5 aborts): SCK high at the release and falling 1..4 cycles LATER while the bus is idle, the "
+        "next transaction then always an ordinary complete read or write, which is the one judged), extra clocks after "
+        "the word, too-fast clocks, unstructured pin noise")
 ASSUMPTIONS = [
     "SPI mode 0 controller: sdi is valid in the cycle in which the falling edge of sck is seen; no synchronisers "
     "in the class: sck/sdi/cs are synchronous to the gateware clock",
@@ -23,6 +26,11 @@ ASSUMPTIONS = [
     "controller samples sdo at the rising edge; 5 cycles cover the PROCESSING/LATCH_OUTPUT wait states after "
     "the last command bit), high for >= 1 cycle; chip select asserted at least one cycle before the first "
     "falling edge and held at least one cycle after the last one (minimum SCK period = 6 clock cycles)",
+    "an aborted transaction may release chip select at either SCK level; after a release with SCK high, SCK returns "
+    "low in the same cycle, 1..4 cycles later while chip select is deasserted (then >= 1 idle + >= 1 chip-select lead "
+    "+ >= 4 low cycles of the first bit: the SCK-low time before the next rising edge is still >= 5 cycles), or only "
+    "inside the next transaction (SCK held high through the idle period, first falling edge >= 1 cycle after chip "
+    "select is asserted)",
     "chip select deasserted for >= 4 clock cycles between transactions (a shorter deassertion that falls entirely "
     "into the PROCESSING/LATCH_OUTPUT wait states after the last command bit is not seen by the FSM)",
     "the theorems about the protocol machine hold for every pin history; they describe which falling edges "
@@ -86,7 +94,8 @@ class _Ctl:
                 self.vals[k] = self.rng.bits(self.R)
 
     def bit(self, b, lo, hi, abort=None):
-        """one SPI bit (mode 0).  abort = None | 'low' | 'high' | 'edge': drop cs during the bit."""
+        """one SPI bit (mode 0).  abort = None | 'low' | 'high' | 'highlate' | 'edge': drop cs during the bit
+        ('highlate' = while sck is high, like 'high'; the caller then lets sck fall only AFTER cs was released)."""
         r = self.rng
         self.sdi = b
         pre = r.range(lo[0], lo[1])
@@ -98,7 +107,7 @@ class _Ctl:
         if r.chance(30):
             self.sdi = r.below(2)          # sdi may change while the clock is high ...
         h = r.range(hi[0], hi[1])
-        if abort == "high":
+        if abort in ("high", "highlate"):
             self.emit(r.range(1, h))
             return False
         self.emit(h)
@@ -136,6 +145,7 @@ def make_stimulus(desc, mp, rng):
     c.emit(rng.range(2, 5))
     fast = kind == 4
     addrs = [r[0] for r in regs]
+    force_ok = False         # the transaction after a 'highlate' abort is an ordinary complete one (it is the one judged)
     while len(c.rows) < budget:
         lo, hi = ((4, 8), (1, 4)) if not fast else ((0, 3), (1, 2))
         if not fast and rng.chance(30):
@@ -146,9 +156,10 @@ def make_stimulus(desc, mp, rng):
         data = 0 if special == 0 else ((1 << R) - 1 if special == 1 else rng.bits(R))
         bits = [is_write] + [(a >> (A - 1 - k)) & 1 for k in range(A)] + [(data >> (R - 1 - k)) & 1 for k in range(R)]
         abort_at, how = None, None
-        if kind in (1, 2) and rng.chance(70 if kind == 1 else 100):
+        if kind in (1, 2) and rng.chance(70 if kind == 1 else 100) and not force_ok:
             abort_at = rng.below(len(bits))
-            how = rng.choice(["low", "high", "edge"])
+            how = rng.choice(["low", "high", "edge", "highlate", "highlate"])
+        force_ok = False
         if rng.chance(50):
             c.new_inputs()
         c.emit(rng.range(1, 4))
@@ -165,6 +176,14 @@ def make_stimulus(desc, mp, rng):
                 for _ in range(rng.range(1, R + 2)):
                     c.bit(rng.below(2), lo, hi)
         c.cs = 0
+        if not ok and how == "highlate":
+            # chip select released with SCK still high; SCK returns low 1..4 cycles LATER, while the bus is idle
+            d = rng.range(1, 4)
+            c.emit(d)
+            c.sck = 0
+            c.emit(rng.range(max(1, 3 - d), 4))                    # with the >= 1 below: cs deasserted >= 4 cycles
+            force_ok = True
+            continue
         if rng.chance(30):
             c.sck = 0
         c.emit(rng.range(3, 6) if not fast else rng.range(0, 2))   # with the >= 1 below: cs high >= 4 cycles
@@ -194,6 +213,7 @@ def monitor(desc, mp, stim, rows, cols):
     if not legal:
         return fails, tags
     # ---- parse chip-select windows
+    after_late_fall = False
     t = 0
     while t < T:
         if not stim[t][2]:
@@ -225,6 +245,15 @@ def monitor(desc, mp, stim, rows, cols):
             tags.add("abort-pos=%d" % min(len(falls), 3) if len(falls) < 3 else "abort-pos>=3")
             if edge_abort:
                 tags.add("abort-on-edge")
+            if stim[t1 - 1][0] == 1 and stim[t1][0] == 1:
+                u = t1
+                while u < T and not stim[u][2] and stim[u][0]:
+                    u += 1
+                tags.add("abort-sck-high:" + ("falls-while-idle" if u < T and not stim[u][2] else "held-into-next"))
+                late_fall = u < T and not stim[u][2]
+            else:
+                late_fall = False
+            after_late_fall = late_fall
             if any(wcount.values()) or any(rcount.values()):
                 fail(t1, "strobe-on-abort", "transaction aborted after %d bits raised a strobe" % len(falls))
             for k in val:
@@ -232,6 +261,9 @@ def monitor(desc, mp, stim, rows, cols):
                     fail(t1, "abort-changed-register", "aborted transaction (%d bits) changed register 0x%x to %#x (was %#x)"
                          % (len(falls), regs[k][0], cols(rows[end - 1], k)[0], val[k]))
             continue
+        if after_late_fall:
+            tags.add("complete-after-abort-with-late-sck-fall")
+        after_late_fall = False
         cmd, dat = bits[:C], bits[C:C + R]
         is_write = cmd[0]
         addr = 0
